@@ -3,15 +3,24 @@
 tables of DESIGN.md section 8 between their markers."""
 import json, glob, os, re, subprocess
 rows = {}
+extra = {}
+# later result files override earlier ones (re-runs after a check was strengthened); files named
+# results-polars*.txt hold runs of the Polars tier (`VERIF_POLARS=1 ./check C07 quick`, also part of
+# `./check C07 thorough`) and are merged in
 for f in sorted(glob.glob('/verif/seeded/results-*.txt')):
+    polars = 'polars' in os.path.basename(f)
     for line in open(f):
         if '::' not in line: continue
         name, rest = line.split('::', 1)
-        rows[name.strip()] = re.findall(r'(C\d\d)\[\s*([^\]]*)\]', rest)
+        hits = [(c, sig, 'polars' if polars else 'quick') for c, sig in re.findall(r'(C\d\d)\[\s*([^\]]*)\]', rest)]
+        if polars: extra[name.strip()] = hits
+        else: rows[name.strip()] = hits
+for n, h in extra.items():
+    rows[n] = rows.get(n, []) + h
 
 def clean(sig):
     sig = re.sub(r'/rustc/[0-9a-f]+/', '', sig)
-    sig = sig.replace('/tmp/rcopy/', '')
+    sig = re.sub(r'/tmp/rcopy\d?/', '', sig)
     return sig[:70].replace('|', '/')
 
 seed_lines = ["| seeded change | breaks | needs to manifest | quick checks that report it (first signature of each) |", "|---|---|---|---|"]
@@ -19,9 +28,9 @@ missed = []
 for name in sorted(n for n in rows if os.path.isdir(f'/verif/seeded/{n}')):
     hits = rows[name]
     m = json.load(open(f'/verif/seeded/{name}/meta.json'))
-    m['detected_by'] = [{'check': h[0], 'tier': 'quick', 'signature': clean(h[1])} for h in hits]
+    m['detected_by'] = [{'check': h[0], 'tier': 'quick' if h[2] == 'quick' else 'thorough (Polars tier; also VERIF_POLARS=1 quick)', 'signature': clean(h[1])} for h in hits]
     json.dump(m, open(f'/verif/seeded/{name}/meta.json', 'w'), indent=1)
-    det = '; '.join(f"{h[0]} `{clean(h[1])}`" for h in hits) if hits else '**MISSED by the quick tier**'
+    det = '; '.join(f"{h[0]}{' (Polars tier)' if h[2] != 'quick' else ''} `{clean(h[1])}`" for h in hits) if hits else '**MISSED by the quick tier**'
     if not hits: missed.append(name)
     seed_lines.append(f"| {name} | {m['property']} | {m['needs_to_manifest']} | {det} |")
 n_seeds = len(seed_lines) - 2
